@@ -74,3 +74,21 @@ Proof.
           (conj EnumProofs.enum_len_no_panic EnumProofs.enum_check_no_panic)).
 Qed.
 Print Assumptions C07_enum_scanner_no_panic.
+
+(* Property C07, part B — the schema scanner (model SchemaScan/SchemaScanner.v of
+   notations/jschema/internal/scanner/scanner.go and scanner_annotations.go) never ends in a panic
+   that is not a DocumentError, whatever the bytes and the mode (plain / lengthComputing); nor does
+   Schema.Len.  Proofs live in SchemaScan/SchemaProofs.v (an invariant over the step function, the
+   stack of open events, returnToStep and the context stack). *)
+From Coq Require Import NArith.
+From JS Require Common.Wire SchemaScan.SchemaScanner SchemaScan.SchemaProofs.
+
+Theorem C07_schema_scanner_no_panic : forall (lc : bool) (bs : Wire.bytes),
+  snd (SchemaScanner.scan lc bs) <> SchemaScanner.Panic.
+Proof. exact SchemaProofs.schema_scan_no_panic. Qed.
+Print Assumptions C07_schema_scanner_no_panic.
+
+Theorem C07_schema_len_no_panic : forall bs : Wire.bytes,
+  SchemaScanner.schema_len bs <> SchemaScanner.VPanic.
+Proof. exact SchemaProofs.schema_len_no_panic. Qed.
+Print Assumptions C07_schema_len_no_panic.
